@@ -1313,6 +1313,8 @@ fn execute_match(
                         None
                     }
                 }
+                // no fee was due on the fill itself: the whole share is refunded
+                (None, Some(original_bid_fee)) => Some(original_bid_fee),
                 (_, _) => None,
             }
         };
